@@ -426,16 +426,25 @@ def run(tier, seed, replay=None):
         work.close()
 
 
-def run_sched(work, tag):
-    """The cloud_blob provider with its own scheduler against a bucket whose poll outlasts watch_interval."""
-    out = work.path("sched_%s.ndjson" % tag)
+SCENARIOS = {
+    # name -> (test, environment variable with the output file, package key, provider)
+    "sched": ("TestVerifC18Scheduler", "VERIF_C18_SCHED", "pollN", "cloudblob"),
+    "life": ("TestVerifC18Lifecycle", "VERIF_C18_LIFE", "informer", "kubernetes"),
+}
+
+
+def run_sched(work, tag, scenario="sched"):
+    """sched: the cloud_blob provider with its own scheduler against a bucket whose poll outlasts watch_interval.
+    life: the kubernetes provider started with a context that ends after the start phase, rule sets appearing later."""
+    test, var, pkg, _ = SCENARIOS[scenario]
+    out = work.path("%s_%s.ndjson" % (scenario, tag))
     cmd = ["go", "test", "-tags", "verif", "-vet=off", "-count=1", "-overlay", overlay_file(work),
-           "-run", "^TestVerifC18Scheduler$", "-timeout", "120s", "./" + PKG["pollN"][0]]
+           "-run", "^%s$" % test, "-timeout", "120s", "./" + PKG[pkg][0]]
     e = verif.goenv()
-    e.update({"VERIF_WORK": verif.WORKROOT, "VERIF_C18_SCHED": out})
+    e.update({"VERIF_WORK": verif.WORKROOT, var: out})
     p = subprocess.run(cmd, cwd=verif.REPO, env=e, capture_output=True, text=True, timeout=300)
     if p.returncode != 0 or not os.path.exists(out):
-        raise Infra("C18 scheduler scenario failed (rc=%d):\n%s" % (p.returncode, (p.stdout + p.stderr)[-3000:]))
+        raise Infra("C18 %s scenario failed (rc=%d):\n%s" % (scenario, p.returncode, (p.stdout + p.stderr)[-3000:]))
     return out
 
 
@@ -449,35 +458,51 @@ def judge_sched(work, tf, tag):
 
 
 def scheduled_polls(work, verdict):
-    tf = run_sched(work, "main")
-    v = judge_sched(work, tf, "main")
+    for scenario in ("sched", "life"):
+        own_goroutine(work, verdict, scenario)
+
+
+def own_goroutine(work, verdict, scenario):
+    prov = SCENARIOS[scenario][3]
+    covkey = {"sched": "scheduled_polls", "life": "changes_after_the_start_phase"}[scenario]
+    tf = run_sched(work, "main", scenario)
+    v = judge_sched(work, tf, scenario + "main")
     ev = read_ndjson(tf)
-    verdict.coverage["scheduled_polls"] = {"scenarios": ev, "rejected": len(v["bad"])}
+    verdict.coverage[covkey] = {"scenarios": ev, "rejected": len(v["bad"])}
     if not v["bad"]:
         return
     reasons = {r for b in v["bad"] for r in b["reasons"]}
     # timing decides here: a rejection counts when the same comparison fails in two further executions
     for n in range(2):
-        tf2 = run_sched(work, "r%d" % n)
-        again = {r for b in judge_sched(work, tf2, "r%d" % n)["bad"] for r in b["reasons"]}
+        tf2 = run_sched(work, "r%d" % n, scenario)
+        again = {r for b in judge_sched(work, tf2, "%sr%d" % (scenario, n))["bad"] for r in b["reasons"]}
         reasons &= again
         if not reasons:
-            log("scheduler scenario: rejection not reproduced (%s)" % json.dumps(ev))
-            verdict.coverage["scheduled_polls"]["unreproduced"] = True
+            log("%s scenario: rejection not reproduced (%s)" % (scenario, json.dumps(ev)))
+            verdict.coverage[covkey]["unreproduced"] = True
             return
     known = load_known(PROP)
-    facts = {"kind": "sched", "prov": "cloudblob", "r": ",".join(sorted(reasons))}
+    facts = {"kind": scenario, "prov": prov, "r": ",".join(sorted(reasons))}
     k = match_known(known, facts)
     if k:
         verdict.known_finding(k)
     else:
-        verdict.violation(save_replay(PROP, "sched-cloudblob", ev), "%s %s" % (facts["r"], json.dumps(facts, sort_keys=True)))
+        verdict.violation(save_replay(PROP, "%s-%s" % (scenario, prov), ev), "%s %s" % (facts["r"], json.dumps(facts, sort_keys=True)))
 
 
 def do_replay(work, replay, seed):
     cases = read_ndjson(os.path.abspath(replay))
     known = load_known(PROP)
     nbad = 0
+    # scenarios of the providers' own goroutines: executed again as they are
+    for scenario in SCENARIOS:
+        if any(c.get("kind", "sched") == scenario and "polls" in c or c.get("kind") == scenario for c in cases):
+            tf = run_sched(work, "replay", scenario)
+            for b in judge_sched(work, tf, scenario + "replay")["bad"]:
+                nbad += 1
+                print("VIOLATION property=%s replay=%s  # %s" % (PROP, replay, ",".join(b["reasons"])))
+            print("replayed the %s scenario" % scenario)
+    cases = [c for c in cases if c.get("kind") in KINDS]
     for kind in KINDS:
         cs = [c for c in cases if c["kind"] == kind]
         if not cs:
